@@ -242,7 +242,7 @@ func sigsVerify(f []string) vlib.Res {
 	default:
 		errName = "bogus"
 	}
-	caps := policyCaps(p)
+	caps := configuredCaps(raw) // what was configured, not what the policy seam made of it
 	or := "ok"
 	if p.Mode == middleware.RecursionWorkEnforce {
 		// the property: DNSSEC operations spent never exceed the configured budgets, whatever
